@@ -60,6 +60,13 @@ func (s *nodeSlab) get() *Node {
 		}
 		n := &current[s.next]
 		s.next++
+		if n.inGraph {
+			// Still registered with the graph: something outside the scope -- an observer on
+			// a node the bind function created, say -- keeps this node of an earlier
+			// generation alive, so its slot is not up for reissue. Handing it out zeroed the
+			// metadata of a node the graph still listed.
+			return s.get()
+		}
 		*n = Node{}
 		return n
 	}
